@@ -515,6 +515,12 @@ func c10Run(c *core.Ctx, i int) {
 		c.Cover("family", "recursion-inside-loops-and-break")
 		runGenProgram(c, loopStateProgram(c.Rng), nil, true, false)
 		return
+	case 9: // small global-reading functions called where a local of the same name is in scope
+		runTextFamily(c, "dynamic-scope", dynamicScopeSource(c.Rng), nil)
+		return
+	case 11: // blocks whose only declarations are typed ones that shadow an outer variable
+		runTextFamily(c, "typed-shadow-blocks", typedShadowBlockSource(c.Rng), nil)
+		return
 	}
 	prog := cfProgram(c, 2+c.Rng.Intn(3))
 	runGenProgram(c, prog, nil, true, i < grid+2)
